@@ -1,4 +1,4 @@
-CONSTANTS H = 1 W = 5 FixMarks = TRUE FixWide = TRUE AllowAmbiguous = FALSE
+CONSTANTS H = 1 W = 5 FixMarks = TRUE FixWide = TRUE FixDamage = TRUE AllowAmbiguous = FALSE
 Alphabet <- AImg
 INIT Init
 NEXT Next
